@@ -63,6 +63,14 @@ def ringDecr (len pos : Nat) : Nat := if pos = 0 then len - 1 else pos - 1
 /-- `C::checked_add` against the maximum of the counter type -/
 def checkedAddMax (cmax a b : Nat) : Option Nat := if a + b ≤ cmax then some (a + b) else none
 
+/-- `a.iter().zip(b.iter()).map(|x| f(x.0, x.1).unwrap()).collect()`: `none` = one of the `unwrap`s panics -/
+def zipWithM {α β γ : Type} (f : α → β → Option γ) : List α → List β → Option (List γ)
+  | a :: xs, b :: ys =>
+    match f a b with
+    | none => none
+    | some c => (zipWithM f xs ys).map (c :: ·)
+  | _, _ => some []
+
 end KOps
 
 /-- Control flow of a translated function body (tools/rustflow.py): it returned `r`, fell through with the
